@@ -286,6 +286,14 @@ func classify(err error) string {
 	if err == nil {
 		return "admitted"
 	}
+	// Add failed: the description is missing or cannot be parsed
+	var se *json.SyntaxError
+	var te *json.UnmarshalTypeError
+	if errors.Is(err, os.ErrNotExist) || errors.As(err, &se) || errors.As(err, &te) ||
+		errors.Is(err, io.ErrUnexpectedEOF) || errors.Is(err, io.EOF) ||
+		strings.HasPrefix(err.Error(), "json:") {
+		return "adderr"
+	}
 	var na *group.NotAuthorisedError
 	var ue group.UserError
 	var pe group.ProtocolError
@@ -357,6 +365,9 @@ func countKicks(es []logEntry) int {
 
 func members(g *group.Group) []*fc {
 	var out []*fc
+	if g == nil {
+		return out
+	}
 	for _, c := range g.GetClients(nil) {
 		out = append(out, c.(*fc))
 	}
@@ -373,7 +384,19 @@ func anyOp(ms []*fc) bool {
 	return false
 }
 
+func lockedOf(g *group.Group) (bool, string) {
+	if g == nil {
+		return false, ""
+	}
+	return g.Locked()
+}
+
+// stateString is the state of the group registered under a name: "absent"
+// when there is none
 func stateString(g *group.Group) string {
+	if g == nil {
+		return "absent"
+	}
 	ms := members(g)
 	var ids []string
 	for _, c := range ms {
@@ -389,17 +412,22 @@ func stateString(g *group.Group) string {
 
 // ---------------------------------------------------------------- sequential histories
 
+// seqHist is the history of one group NAME: every observation goes through
+// group.Get(name), as a client's does.
 type seqHist struct {
 	t       *tr.Trace
 	r       *tr.Rand
 	w       *world
 	dir     string
 	name    string
-	g       *group.Group
-	written descCfg // the file
-	loaded  descCfg // the description the group holds (file as of the last Add)
+	g       *group.Group // the object registered under the name (nil: none)
+	written descCfg      // the last readable description written
+	fileOK  bool         // the file is currently readable
+	loaded  descCfg      // the description the registered object holds
 	uid     int
 	objs    []*fc // every object ever created
+	// clients that were accepted and have not left, with the object they entered
+	live map[*fc]*group.Group
 	// an explicit unlock without an operator present was made: the autolock
 	// monitor is suspended until the group is locked again
 	unguarded bool
@@ -409,7 +437,8 @@ var histSeq int
 
 func newSeqHist(t *tr.Trace, r *tr.Rand, dir, stream string, d descCfg) *seqHist {
 	histSeq++
-	h := &seqHist{t: t, r: r, w: &world{}, dir: dir, name: fmt.Sprintf("g%d", histSeq)}
+	h := &seqHist{t: t, r: r, w: &world{}, dir: dir, name: fmt.Sprintf("g%d", histSeq),
+		live: map[*fc]*group.Group{}}
 	t.History("group", stream)
 	h.desc(d)
 	h.add()
@@ -436,7 +465,42 @@ func (h *seqHist) desc(d descCfg) {
 		panic(err)
 	}
 	h.written = d
+	h.fileOK = true
 	h.t.Op("-", "desc", d.max, d.autolock, d.autokick, optInt(d.nb), optInt(d.exp), d.auth())
+}
+
+// corrupt makes the description unreadable: what a join or group.Update
+// sees while the file is being replaced non-atomically, was removed, or was
+// edited into something the parser refuses
+func (h *seqHist) corrupt(mode int) {
+	fn := filepath.Join(h.dir, h.name+".json")
+	good := h.written.json()
+	var content []byte
+	switch mode {
+	case 0: // half-written
+		content = good[:len(good)/2]
+	case 1: // removed
+	case 2: // empty
+		content = []byte{}
+	case 3: // unknown field
+		content = []byte(`{"max-clients":1,"no-such-field":true}`)
+	default: // wrong type
+		content = []byte(`{"max-clients":"many"}`)
+	}
+	if mode == 1 {
+		os.Remove(fn)
+	} else {
+		if err := os.WriteFile(fn+".tmp", content, 0600); err != nil {
+			panic(err)
+		}
+		n := atomic.AddInt64(&fileSeq, 1)
+		mt := t0.Add(-1000 * time.Hour).Add(time.Duration(n) * time.Second)
+		os.Chtimes(fn+".tmp", mt, mt)
+		os.Rename(fn+".tmp", fn)
+	}
+	h.fileOK = false
+	h.t.Op("-", "corrupt", mode)
+	h.t.Note(fmt.Sprintf("corrupt:%d", mode))
 }
 
 // kicksAfterAdd: what autoLockKick schedules when it runs on `ms` under d
@@ -447,24 +511,60 @@ func kicksExpected(d descCfg, ms []*fc) int {
 	return 0
 }
 
-func (h *seqHist) add() {
-	mark := h.w.mark()
-	var before []*fc
-	if h.g != nil {
-		before = members(h.g)
-	}
-	g, err := group.Add(h.name, nil)
-	if err != nil {
-		panic(fmt.Sprintf("group.Add: %v", err))
-	}
-	if h.g != nil && g != h.g {
-		panic("group object replaced")
+// sync re-reads which object is registered under the name and evaluates the
+// monitor "the registered group is never dropped or replaced while it has
+// members": every client that was accepted and has not left must be a
+// member of the group that a newcomer naming the group is evaluated against
+func (h *seqHist) sync() {
+	g := group.Get(h.name)
+	if g != h.g {
+		h.unguarded = false
+		if g != nil {
+			h.t.Note("group-recreated")
+		} else {
+			h.t.Note("group-dropped")
+		}
 	}
 	h.g = g
-	h.loaded = h.written
-	h.waitKicks(mark, kicksExpected(h.loaded, before))
+	h.t.Checked("C10.registered_group_kept")
+	for c, cg := range h.live {
+		if g != cg {
+			h.t.Fail("C10", "registered_group_kept", fmt.Sprintf(
+				"client %q is a member (never left, never kicked) of an object that is no longer the group named %q: later joins are evaluated against another, %s",
+				c.id, h.name, map[bool]string{true: "missing group", false: "new empty group"}[g == nil]))
+			break
+		}
+		if g.GetClient(c.id) != group.Client(c) {
+			h.t.Fail("C10", "registered_group_kept", fmt.Sprintf("accepted client %q is not a member of the group named %q", c.id, h.name))
+			break
+		}
+	}
+}
+
+func (h *seqHist) add() {
+	mark := h.w.mark()
+	before := members(h.g)
+	g, err := group.Add(h.name, nil)
+	want := 0
+	if err == nil {
+		h.loaded = h.written
+		want = kicksExpected(h.loaded, before)
+	}
+	h.waitKicks(mark, want)
 	ev := h.w.since(mark)
-	h.t.Op(canonEvents(ev)+" | "+stateString(g), "add")
+	h.t.Checked("C10.add_result")
+	if (err == nil) != h.fileOK {
+		h.t.Fail("C10", "add_result", fmt.Sprintf("Add with readable description=%v returned %v", h.fileOK, err))
+	}
+	h.sync()
+	if err == nil && g != h.g {
+		h.t.Fail("C10", "registered_group_kept", "Add returned an object that is not the one registered under the name")
+	}
+	res := "ok"
+	if err != nil {
+		res = classify(err)
+	}
+	h.t.Op(res+" "+canonEvents(ev)+" | "+stateString(h.g), "add")
 	h.afterStep(ev)
 }
 
@@ -485,27 +585,34 @@ func (h *seqHist) join(id string, sys, sysop bool, code int) *fc {
 	c := h.newClient(id, sys, sysop)
 	mark := h.w.mark()
 	before := members(h.g)
-	lockedBefore, msgBefore := h.g.Locked()
+	lockedBefore, msgBefore := lockedOf(h.g)
 	d := h.written // AddClient reloads first
 	g, err := group.AddClient(h.name, c, group.ClientCredentials{
 		Username: creds[code].user, Password: creds[code].pw,
 	})
-	h.loaded = d
+	res := classify(err)
+	want := 0
+	if res != "adderr" {
+		h.loaded = d
+		want = kicksExpected(d, before)
+	}
 	if err == nil {
 		c.setGroup(g)
-		if g != h.g {
-			panic("group object replaced")
-		}
+		h.live[c] = g
 	}
-	h.waitKicks(mark, kicksExpected(d, before))
+	h.waitKicks(mark, want)
 	ev := h.w.since(mark)
-	res := classify(err)
+	h.sync()
 	h.t.Op(res+" "+canonEvents(ev)+" | "+stateString(h.g), "join", c.uid, hx(id), sys, sysop, code)
 	h.t.Note("join:" + strings.SplitN(res, ":", 2)[0])
 
 	// ---- monitors (driver's own reading of the rules; not the model)
+	h.t.Checked("C10.add_result")
+	if (res == "adderr") != !h.fileOK {
+		h.t.Fail("C10", "add_result", fmt.Sprintf("join with readable description=%v returned %v", h.fileOK, err))
+	}
 	after := members(h.g)
-	lockedAfter, msgAfter := h.g.Locked()
+	lockedAfter, msgAfter := lockedOf(h.g)
 	valid, isop := d.expect(code)
 	if sys {
 		valid, isop = true, sysop
@@ -525,11 +632,25 @@ func (h *seqHist) join(id string, sys, sysop bool, code int) *fc {
 			toldAbout++
 		}
 	}
+	// "before" for the rules: the members of the group of that name, which
+	// include every client that was accepted and has not left
 	idTaken := false
 	for _, m := range before {
 		if m.id == id {
 			idTaken = true
 		}
+	}
+	for m := range h.live {
+		if m != c && m.id == id {
+			idTaken = true
+		}
+	}
+	held := len(h.live)
+	if err == nil {
+		held-- // c itself
+	}
+	if held < len(before) {
+		held = len(before)
 	}
 	if err == nil {
 		c.op = isop
@@ -548,8 +669,8 @@ func (h *seqHist) join(id string, sys, sysop bool, code int) *fc {
 			if d.autokick && !anyOp(before) {
 				why = append(why, "autokick and no operator present")
 			}
-			if d.max > 0 && len(before) >= d.max {
-				why = append(why, fmt.Sprintf("group already holds %d >= max-clients %d", len(before), d.max))
+			if d.max > 0 && held >= d.max {
+				why = append(why, fmt.Sprintf("group already holds %d >= max-clients %d", held, d.max))
 			}
 			if len(why) > 0 {
 				h.t.Fail("C10", "admit_conditions", fmt.Sprintf("non-operator %q admitted although: %s", id, strings.Join(why, "; ")))
@@ -571,18 +692,22 @@ func (h *seqHist) join(id string, sys, sysop bool, code int) *fc {
 			h.t.Fail("C10", "admit_conditions", fmt.Sprintf("admitted client %q is not a member or was not told", id))
 		}
 	} else {
-		h.t.Checked("C10.ops_exempt")
-		if valid && (isop || sys) && id != "" && !idTaken {
-			h.t.Fail("C10", "ops_exempt", fmt.Sprintf("operator/system client %q with valid credentials and a fresh id rejected: %v", id, err))
+		if res != "adderr" {
+			h.t.Checked("C10.ops_exempt")
+			if valid && (isop || sys) && id != "" && !idTaken {
+				h.t.Fail("C10", "ops_exempt", fmt.Sprintf("operator/system client %q with valid credentials and a fresh id rejected: %v", id, err))
+			}
 		}
 		h.t.Checked("C10.reject_no_effect")
 		same := len(before) == len(after)
 		for i := 0; same && i < len(before); i++ {
 			same = before[i] == after[i]
 		}
-		// the Add inside AddClient may have locked the group (autolock)
+		// the Add inside AddClient may have locked the group (autolock);
+		// an empty group whose description is unreadable is dropped
 		lockOK := lockedBefore == lockedAfter && msgBefore == msgAfter ||
-			(!lockedBefore && lockedAfter && d.autolock && !anyOp(before))
+			(!lockedBefore && lockedAfter && d.autolock && !anyOp(before)) ||
+			(res == "adderr" && len(before) == 0)
 		if !same || isMember || joinedCB || (toldAbout > 0 && !idTaken) || !lockOK {
 			h.t.Fail("C10", "reject_no_effect", fmt.Sprintf(
 				"rejected client %q (%s): members unchanged=%v member=%v joined-callback=%v announced-to=%d lock-unchanged=%v",
@@ -597,7 +722,8 @@ func (h *seqHist) join(id string, sys, sysop bool, code int) *fc {
 // member object registered under its id
 func (h *seqHist) del(c *fc) {
 	mark := h.w.mark()
-	was := h.g.GetClient(c.id) == group.Client(c) && c.Group() != nil
+	cg := c.Group()
+	was := cg != nil && cg.GetClient(c.id) == group.Client(c)
 	before := members(h.g)
 	h.w.add(logEntry{kind: evDelBegin, c: c})
 	group.DelClient(c)
@@ -617,10 +743,12 @@ func (h *seqHist) del(c *fc) {
 	}
 	want := 0
 	if was {
-		want = kicksExpected(h.loaded, after)
+		want = kicksExpected(h.loaded, members(cg))
+		delete(h.live, c)
 	}
 	h.waitKicks(mark, want)
 	ev := h.w.since(mark)
+	h.sync()
 	h.t.Op(canonEvents(ev)+" | "+stateString(h.g), "del", c.uid, hx(c.id))
 	if was {
 		c.setGroup(nil)
@@ -633,6 +761,9 @@ func (h *seqHist) del(c *fc) {
 }
 
 func (h *seqHist) lock(b bool, msg string) {
+	if h.g == nil {
+		return
+	}
 	mark := h.w.mark()
 	if !b && !anyOp(members(h.g)) {
 		h.unguarded = true
@@ -640,20 +771,40 @@ func (h *seqHist) lock(b bool, msg string) {
 	}
 	h.g.SetLocked(b, msg)
 	ev := h.w.since(mark)
+	h.sync()
 	h.t.Op(canonEvents(ev)+" | "+stateString(h.g), "lock", b, hx(msg))
 	h.afterStep(ev)
 }
 
 func (h *seqHist) shutdown(msg string) {
+	if h.g == nil {
+		return
+	}
 	mark := h.w.mark()
 	group.Shutdown(msg)
 	ev := h.w.since(mark)
+	h.sync()
 	h.t.Op(canonEvents(ev)+" | "+stateString(h.g), "shutdown", hx(msg))
 	h.afterStep(nil) // kickall kicks operators too
 }
 
+// delete is group.Delete(name), what group.Update does to an expired group
+func (h *seqHist) delete() {
+	ok := group.Delete(h.name)
+	h.t.Checked("C10.registered_group_kept")
+	if ok && len(h.live) > 0 {
+		h.t.Fail("C10", "registered_group_kept", "Delete dropped a group that has members")
+	}
+	h.sync()
+	h.t.Op(tr.B(ok)+" | "+stateString(h.g), "delete")
+	h.afterStep(nil)
+}
+
 // afterStep: state monitors after every operation
 func (h *seqHist) afterStep(ev []logEntry) {
+	if h.g == nil {
+		return
+	}
 	ms := members(h.g)
 	h.t.Checked("C10.unique_ids")
 	seen := map[string]bool{}
@@ -684,16 +835,19 @@ func (h *seqHist) afterStep(ev []logEntry) {
 }
 
 func (h *seqHist) finish() {
-	// leave the table clean: remove every member and delete the group
-	for _, c := range members(h.g) {
+	// leave the table clean: remove every member (from the object it
+	// entered) and delete the group
+	for c := range h.live {
 		group.DelClient(c)
 	}
-	if h.g.ClientCount() != 0 {
+	for _, c := range members(group.Get(h.name)) {
+		group.DelClient(c)
+	}
+	if g := group.Get(h.name); g != nil && g.ClientCount() != 0 {
 		h.t.Fail("C10", "unique_ids", "members left after every member was removed")
 	}
 	group.Delete(h.name)
 	os.Remove(filepath.Join(h.dir, h.name+".json"))
-	time.Sleep(50 * time.Microsecond)
 }
 
 func ip(v int) *int { return &v }
@@ -738,13 +892,34 @@ func randomOps(h *seqHist, nops int) {
 	freshID := func() string { idn++; return fmt.Sprintf("c%d", idn) }
 	if r.Chance(1, 2) { // an operator arrives first and opens the group
 		h.join(freshID(), false, false, r.Intn(2))
-		if l, _ := h.g.Locked(); l && anyOp(members(h.g)) {
+		if l, _ := lockedOf(h.g); l && anyOp(members(h.g)) {
 			h.lock(false, "")
 		}
 	}
 	for i := 0; i < nops; i++ {
 		ms := members(h.g)
-		switch r.Pick(40, 22, 8, 6, 6, 1, 3) {
+		// fault stream: while the description is unreadable the history
+		// goes on (joins, Adds, leaves, lock changes), and the file comes
+		// back soon
+		if !h.fileOK && r.Chance(2, 5) {
+			if r.Chance(3, 4) {
+				h.desc(h.written)
+			} else {
+				h.desc(randDesc(r))
+			}
+			continue
+		}
+		pick := r.Pick(40, 22, 8, 6, 6, 1, 3, 5, 1)
+		if !h.fileOK && pick == 3 {
+			pick = 4 // no second fault on top of the first: an Add instead
+		}
+		switch pick {
+		case 7: // the description becomes unreadable
+			if h.fileOK {
+				h.corrupt(r.Intn(5))
+			}
+		case 8: // group.Update expiring the group
+			h.delete()
 		case 0: // join
 			id := freshID()
 			switch r.Pick(20, 3, 1) {
@@ -787,7 +962,7 @@ func randomOps(h *seqHist, nops int) {
 				}
 				continue
 			}
-			if l, _ := h.g.Locked(); !l || r.Chance(1, 4) {
+			if l, _ := lockedOf(h.g); !l || r.Chance(1, 4) {
 				h.lock(true, lockMsgs[r.Intn(len(lockMsgs))])
 			} else {
 				h.lock(false, "")
@@ -914,6 +1089,41 @@ func scripted(t *tr.Trace, r *tr.Rand, dir string) {
 	}
 }
 
+// scriptedFaults: the description is unreadable for a while (half-written,
+// removed, unparsable) while the group has members; every later join must be
+// evaluated against the members, the lock and the ids that are already there
+func scriptedFaults(t *tr.Trace, r *tr.Rand, dir string) {
+	for mode := 0; mode < 5; mode++ {
+		d := descCfg{max: 3, users: baseUsers()}
+		h := newSeqHist(t, r, dir, "scripted-fault", d)
+		a := h.join("a", false, false, 2)
+		o := h.join("o", false, false, 0)
+		h.lock(true, "m1")
+		h.corrupt(mode)
+		h.join("x", false, false, 2) // Add fails
+		h.add()                      // group.Update meanwhile
+		h.join("y", false, false, 0) // operators cannot join either
+		h.desc(d)
+		h.join("b", false, false, 3) // still locked with m1
+		h.lock(false, "")
+		h.join("a", false, false, 3)      // id still taken
+		b := h.join("b", false, false, 3) // third member
+		h.join("c", false, false, 2)      // 3 members: too many
+		h.del(o)
+		h.corrupt((mode + 1) % 5)
+		h.del(a)
+		h.add()  // fails; the group still has a member and is kept
+		h.del(b) // the last member leaves while the file is unreadable
+		h.add()  // now the (empty) group is dropped
+		h.join("c", false, false, 2)
+		h.desc(d)
+		h.join("c", false, false, 2) // a new group
+		h.delete()                   // refused: it has a member
+		h.t.Nontrivial(fmt.Sprintf("scripted-fault-%d", mode))
+		h.finish()
+	}
+}
+
 func runGroup(t *tr.Trace, r *tr.Rand, n int) {
 	log.SetOutput(io.Discard)
 	dir, err := os.MkdirTemp("", "verif-group-")
@@ -925,6 +1135,7 @@ func runGroup(t *tr.Trace, r *tr.Rand, n int) {
 	group.DataDirectory = dir
 
 	scripted(t, r, dir)
+	scriptedFaults(t, r, dir)
 	for hi := 0; hi < n; hi++ {
 		d := randDesc(r)
 		stream := "mixed"
